@@ -150,7 +150,11 @@ func cmdFanIn(a Args) {
 		}
 		_ = fr
 		for i := 0; i < nsub && fail == ""; i++ {
-			open(fmt.Sprintf("s%d", i), fmt.Sprintf("fs%d", i), "o/#")
+			if i == 0 {
+				open("s0", "fs0", "o/#", "q/#") // only s0 also listens to the second in-process publisher
+			} else {
+				open(fmt.Sprintf("s%d", i), fmt.Sprintf("fs%d", i), "o/#")
+			}
 		}
 		for i := 0; i < npub && fail == ""; i++ {
 			open(fmt.Sprintf("p%d", i), fmt.Sprintf("fp%d", i))
@@ -194,7 +198,7 @@ func cmdFanIn(a Args) {
 					if (p.first>>1)&3 > 0 {
 						rest = rest[2:]
 					}
-					if len(topic) > 3 && topic[:3] == "o/p" && len(rest) >= 8 {
+					if len(topic) > 3 && (topic[:3] == "o/p" || topic[:3] == "q/p") && len(rest) >= 8 {
 						ev["p"] = int(binary.BigEndian.Uint32(rest[0:4]))
 						ev["n"] = int(binary.BigEndian.Uint32(rest[4:8]))
 					}
@@ -262,6 +266,22 @@ func cmdFanIn(a Args) {
 				binary.BigEndian.PutUint32(pl[4:8], uint32(n))
 				m := message.NewPublishMessage()
 				m.SetTopic([]byte("o/p7"))
+				m.SetPayload(pl)
+				m.SetQoS(0)
+				r.svr.Publish(m)
+			}
+		}()
+		// a second in-process publisher on a topic with a different subscriber set, concurrent with the first
+		// (Server.Publish is called from several goroutines of an application)
+		wg.Add(1)
+		go func() {
+			defer wg.Done()
+			for n := 0; n < msgs && !retOnly; n++ {
+				pl := make([]byte, 300)
+				binary.BigEndian.PutUint32(pl[0:4], 8)
+				binary.BigEndian.PutUint32(pl[4:8], uint32(n))
+				m := message.NewPublishMessage()
+				m.SetTopic([]byte("q/p8"))
 				m.SetPayload(pl)
 				m.SetQoS(0)
 				r.svr.Publish(m)
